@@ -305,11 +305,55 @@ def run(res, programs, tier):
         cfgname = P.name
         if INT not in P.units:
             continue
+        P = storage_view(P)
+        if getattr(P, "inlined_helpers", None):
+            res.note("R17[%s]: private helpers spliced back into their reviewed callers before analysis: %s" % (cfgname, ", ".join(P.inlined_helpers)))
         _inventory(res, P, cfgname)
         _r17_3(res, P, cfgname)
         _r17_8(res, P, cfgname)
     from . import c17b
     c17b.run(res, programs, tier)
+
+
+def storage_view(P):
+    """the Program with unreviewed private helpers of the storage layer (functions that contain unsafe
+    operations or write storage fields, are not public, and are called only from reviewed functions) inlined
+    into their callers: an `extract helper` refactoring of reviewed unsafe code is analysed as the code it
+    was extracted from (rules/inline.py)"""
+    from . import inline
+    if INT not in P.units:
+        return P
+    storage_fields = set(FIELD_WRITERS)
+
+    def touches_storage(f):
+        if f.get("unsafe"):
+            return True
+        try:
+            if unsafe_ops(f):
+                return True
+        except Exception:
+            return False
+        for i, j, s in mir.iter_stmts(f["mir"], reachable_only=False):
+            if s["k"] == "as":
+                for e in s["p"].get("p", []):
+                    if e.get("k") == "f" and (e.get("of"), e.get("n")) in storage_fields:
+                        return True
+        return False
+
+    def reviewed(c, helpers):
+        if c["p"] in UNSAFE_TABLE or c["p"] in helpers:
+            return True
+        return any(c["p"] in ws for ws in FIELD_WRITERS.values()) or any(c["p"] in cs for cs in CONSTRUCTORS.values())
+
+    def is_helper(f, callers, helpers):
+        if f["crate"] != INT or f["p"] in UNSAFE_TABLE or f.get("kind") == "Closure" or str(f.get("vis", "")).startswith("Public"):
+            return False
+        if any(f["p"] in ws for ws in FIELD_WRITERS.values()):
+            return False
+        if not touches_storage(f):
+            return False
+        return all(reviewed(c, helpers) for c in callers)
+    return inline.view(P, INT, is_helper)
 
 
 # ------------------------------------------------------------------------------------------------
